@@ -27,7 +27,7 @@ void vp_spawn(void(*fn)(void*),void*arg){ g_threads.emplace_back(fn,arg); }
 void vp_atomic_begin(void){} void vp_atomic_end(void){}
 void vp_shared(const void*,size_t){}
 void vp_thread(unsigned){}
-void vp_point(const char*){}
+__attribute__((weak)) void vp_point(const char*){}
 void vp_nothrow(bool){}
 bool vp_feq(float a,float b){ if(a==b) return true; double d=(double)a-(double)b; if(d<0)d=-d; double s=1+(a<0?-a:a)+(b<0?-b:b); return d<=2e-3*s || (a!=a&&b!=b); }
 bool vp_deq(double a,double b){ if(a==b) return true; double d=a-b; if(d<0)d=-d; double s=1+(a<0?-a:a)+(b<0?-b:b); return d<=1e-6*s || (a!=a&&b!=b); }
